@@ -234,6 +234,16 @@ fn transfer(case: &Value, out: &mut Obj) -> Result<(), Obj> {
                 "arr4" => read_arr!(env, sd, 4, index, sub_arg),
                 "arr16" => read_arr!(env, sd, 16, index, sub_arg),
                 "arr64" => read_arr!(env, sd, 64, index, sub_arg),
+                // fixed arrays of multi-byte items (destination of items * width bytes)
+                "a16x4" => env.run(async {
+                    sd.sdo_read::<[u16; 4]>(index, sub_arg).await.map(|v| v.iter().flat_map(|x| x.to_le_bytes()).collect::<Vec<u8>>())
+                }),
+                "a32x3" => env.run(async {
+                    sd.sdo_read::<[u32; 3]>(index, sub_arg).await.map(|v| v.iter().flat_map(|x| x.to_le_bytes()).collect::<Vec<u8>>())
+                }),
+                "a64x2" => env.run(async {
+                    sd.sdo_read::<[u64; 2]>(index, sub_arg).await.map(|v| v.iter().flat_map(|x| x.to_le_bytes()).collect::<Vec<u8>>())
+                }),
                 "str32" => read_str!(env, sd, 32, index, sub_arg),
                 "str128" => read_str!(env, sd, 128, index, sub_arg),
                 "raw_vec" => env.run(async {
